@@ -120,9 +120,10 @@ Theorem C08_wire_preserves_eq_hash : forall lax ex m,
 Proof. exact wire_eq_lemma. Qed.
 Print Assumptions C08_wire_preserves_eq_hash.
 
-(* replace(): identity, soundness, class preservation, set-then-get, unknown fields rejected;
-   the identity law is refuted (open finding) for values decoded from tagged JSON *)
-Theorem C08_replace_identity : forall lax m, model_wf m = true -> replace lax false m [] = Ok m.
+(* replace(): identity, soundness, class preservation, set-then-get, unknown fields rejected -
+   for constructed values and ([d] = true) for values decoded from tagged JSON alike; on the
+   pinned code (dump by field name) the identity law was refuted for decoded values *)
+Theorem C08_replace_identity : forall lax d m, model_wf m = true -> replace lax d m [] = Ok m.
 Proof. exact replace_identity_lemma. Qed.
 Print Assumptions C08_replace_identity.
 
@@ -134,9 +135,9 @@ Theorem C08_replace_class : forall lax d m upd m', replace lax d m upd = Ok m' -
 Proof. exact replace_class_lemma. Qed.
 Print Assumptions C08_replace_class.
 
-Theorem C08_replace_artist_name : forall lax a s,
+Theorem C08_replace_artist_name : forall lax d a s,
   artist_wf a = true ->
-  replace lax false (MArtist a) [(k_name, JStr s)] = Ok (MArtist (mkArtist (ar_uri a) (Some s) (ar_sortname a) (ar_mbid a))).
+  replace lax d (MArtist a) [(k_name, JStr s)] = Ok (MArtist (mkArtist (ar_uri a) (Some s) (ar_sortname a) (ar_mbid a))).
 Proof. exact replace_artist_name. Qed.
 Print Assumptions C08_replace_artist_name.
 
@@ -146,10 +147,10 @@ Theorem C08_replace_unknown_field_rejected : forall lax a k v,
 Proof. exact replace_unknown_artist. Qed.
 Print Assumptions C08_replace_unknown_field_rejected.
 
-Theorem C08_replace_identity_refuted_when_decoded :
-  exists m, model_wf m = true /\ forall lax, replace lax true m [] <> Ok m.
+Theorem C08_replace_identity_refuted_before_fix_when_decoded :
+  exists m, model_wf m = true /\ forall lax, replace_pinned lax true m [] <> Ok m.
 Proof. exact replace_identity_refuted_when_decoded. Qed.
-Print Assumptions C08_replace_identity_refuted_when_decoded.
+Print Assumptions C08_replace_identity_refuted_before_fix_when_decoded.
 
 (* non-vacuity *)
 Theorem C08_nonvacuous_wf :
